@@ -1,74 +1,61 @@
 /-
-  The compiler of Model/MiniVM.lean is correct w.r.t. its reference semantics (C01.3):
-  `compile_yields` — the code emitted for ANY query of the fragment, placed anywhere in the
-  code of a well laid-out program and started on ANY stack, pending forks, registers and call
-  frames that realise the query's closure environment (`EnvRel`), `Yields` exactly the outputs
-  `eval` prescribes and then fails into the pending forks carrying `eval`'s error, if any.
-  Induction on the fuel of `eval`, then on the query.  Port of the kernel-checked prototype
-  (proto-vm-refinement), adapted to the instruction shapes of the real compiler: the call site
-  saves its input in a register, the function prologue `store; store; load`, lexical lookup by
-  scope id, `opscope`'s outerindex computation.  Core Lean only.
+  The compiler of Model/MiniVM.lean is correct w.r.t. its reference semantics (C01.3): lemmas
+  about single constructs (`collect` for `[q]`, `call_of_body` for `ret`), lexical lookup
+  (`resolve`, `frameAt`) and the relation `EnvRel` between the machine's frames + registers and
+  the closure environment of the reference semantics.  The closure a function receives lives
+  in register 1 of its frame (as in the real VM); `EnvRel` reads the registers only at a set `P`
+  of read-only registers, which `Yields` promises not to write and requires the rest of the
+  program to preserve.  Core Lean only.
 -/
 import Gojq.Proofs.MiniVMYields
 namespace Gojq.MiniVM
 
 /-! ## the current frame -/
 
-/-- the top frame belongs to the scope whose `opscope` is at `e`; its parameter slots are below `lo` -/
-def TopIs (fr : List Frame) (e lo : Nat) : Prop := ∃ f fr', fr = f :: fr' ∧ f.id = e ∧ f.argc < lo
+/-- the top frame belongs to the scope whose `opscope` is at `e` -/
+def TopIs (fr : List Frame) (e : Nat) : Prop := ∃ f fr', fr = f :: fr' ∧ f.id = e
 
-theorem TopIs.ne_nil {fr e lo} (h : TopIs fr e lo) : fr ≠ [] := by
-  obtain ⟨f, fr', rfl, _, _⟩ := h; simp
-
-theorem TopIs.mono {fr e lo lo'} (h : TopIs fr e lo) (hl : lo ≤ lo') : TopIs fr e lo' := by
-  obtain ⟨f, fr', rfl, h1, h2⟩ := h; exact ⟨f, fr', rfl, h1, by omega⟩
+theorem TopIs.ne_nil {fr e} (h : TopIs fr e) : fr ≠ [] := by
+  obtain ⟨f, fr', rfl, _⟩ := h; simp
 
 /-- `env.index` of a register of the current scope finds the top frame -/
-theorem TopIs.resolve {fr e lo} (h : TopIs fr e lo) :
-    ∃ f, MiniVM.resolve e fr (fr.length - 1) = some (f, fr.length - 1) ∧ f.base = base fr ∧ f.argc < lo ∧
+theorem TopIs.resolve {fr e} (h : TopIs fr e) :
+    ∃ f, MiniVM.resolve e fr (fr.length - 1) = some (f, fr.length - 1) ∧ f.base = base fr ∧
       frameAt fr (fr.length - 1) = some f ∧ f.id = e := by
-  obtain ⟨f, fr', rfl, h1, h2⟩ := h
-  exact ⟨f, by simp [MiniVM.resolve, h1], rfl, h2, by simp [frameAt], h1⟩
-
-/-! ## single steps whose side conditions `simp` would rewrite -/
-
-theorem step_load_val {code pc st fs bt e R fr off cp sid i f d} (hc : code[pc]? = some (.load sid i))
-    (hres : resolve sid fr (fr.length - 1) = some (f, d)) (hslot : ¬ (1 ≤ i ∧ i ≤ f.argc)) :
-    step code (.run pc st fs bt e R fr off cp) = some (.run (pc+1) (.v (R (f.base + i)) :: st) fs bt e R fr off cp) := by
-  simp only [step, hc, hres]; rw [if_neg hslot]
-
-theorem step_load_param {code pc st fs bt e R fr off cp sid i f d t d'} (hc : code[pc]? = some (.load sid i))
-    (hres : resolve sid fr (fr.length - 1) = some (f, d)) (hslot : 1 ≤ i ∧ i ≤ f.argc) (hp : f.param = some (t, d')) :
-    step code (.run pc st fs bt e R fr off cp) = some (.run (pc+1) (.clo t d' :: st) fs bt e R fr off cp) := by
-  simp only [step, hc, hres]; rw [if_pos hslot, hp]
-
-theorem step_scope {code pc st fs bt e R fr off cp id n argc d f'} (hc : code[pc]? = some (.scope id n argc))
-    (hcp : cp.2 = some d) (hfa : frameAt fr d = some f') :
-    step code (.run pc st fs bt e R fr off cp) =
-      some (.run (pc+1) st fs bt e R
-        (⟨id, cp.1, off, fs.length, if f'.id = id then f'.outer else some d, argc, none⟩ :: fr) (off + n) cp) := by
-  simp only [step, hc, hcp, hfa]
-
-theorem step_store_param {code pc s fs bt e R f fr' off cp sid i t d} (hc : code[pc]? = some (.store sid i))
-    (hslot : f.id = sid ∧ 1 ≤ i ∧ i ≤ f.argc) :
-    step code (.run pc (.clo t d :: s) fs bt e R (f :: fr') off cp) =
-      some (.run (pc+1) s fs bt e R ({ f with param := some (t, d) } :: fr') off cp) := by
-  simp only [step, hc]; rw [if_pos hslot]
+  obtain ⟨f, fr', rfl, h1⟩ := h
+  exact ⟨f, by simp [MiniVM.resolve, h1], rfl, by simp [frameAt], h1⟩
 
 theorem topDepth_of_ne_nil {fr : List Frame} (h : fr ≠ []) : topDepth fr = some (fr.length - 1) := by
   cases fr with
   | nil => exact absurd rfl h
   | cons f fr' => simp [topDepth]
 
+theorem step_scope {code pc st fs bt e R fr off cp id n argc d f'} (hc : code[pc]? = some (.scope id n argc))
+    (hcp : cp.2 = some d) (hfa : frameAt fr d = some f') :
+    step code (.run pc st fs bt e R fr off cp) =
+      some (.run (pc+1) st fs bt e R
+        (⟨id, cp.1, off, fs.length, if f'.id = id then f'.outer else some d⟩ :: fr) (off + n) cp) := by
+  simp only [step, hc, hcp, hfa]
+
+theorem step_store {code pc x s fs bt e R fr off cp sid i f d} (hc : code[pc]? = some (.store sid i))
+    (hres : resolve sid fr (fr.length - 1) = some (f, d)) :
+    step code (.run pc (x :: s) fs bt e R fr off cp) = some (.run (pc+1) s fs bt e (R.set (f.base + i) x) fr off cp) := by
+  simp only [step, hc, hres]
+
+theorem step_load {code pc st fs bt e R fr off cp sid i f d} (hc : code[pc]? = some (.load sid i))
+    (hres : resolve sid fr (fr.length - 1) = some (f, d)) :
+    step code (.run pc st fs bt e R fr off cp) = some (.run (pc+1) (R (f.base + i) :: st) fs bt e R fr off cp) := by
+  simp only [step, hc, hres]
+
 /-- the body of `[q]`: every output is appended to the accumulator register, then the machine
     backtracks -/
-theorem collect {code} {Oq : Nat → Prop} {oq fr G pe S sid i f d c outs e}
+theorem collect {code} {Oq P : Nat → Prop} {oq fr G pe S sid i f d c outs e}
     (hres : resolve sid fr (fr.length - 1) = some (f, d))
-    (hr : ¬ Oq (f.base + i)) (hrlt : f.base + i < oq)
+    (hr : ¬ Oq (f.base + i)) (hrP : ¬ P (f.base + i)) (hrlt : f.base + i < oq)
     (happ : code[pe]? = some (.append sid i)) (hbt : code[pe+1]? = some .backtrack)
-    (y : Yields code Oq oq fr G pe S c outs e) :
-    ∀ acc, c.regs (f.base + i) = .arr acc →
-    ∃ R', Steps code c (.fail G e R') ∧ R' (f.base + i) = .arr (acc ++ outs) ∧
+    (y : Yields code Oq P oq fr G pe S c outs e) :
+    ∀ acc, c.regs (f.base + i) = .v (.arr acc) →
+    ∃ R', Steps code c (.fail G e R') ∧ R' (f.base + i) = .v (.arr (acc ++ outs)) ∧
       EqOff (fun j => Wr Oq oq j ∨ j = f.base + i) c.regs R' := by
   induction y with
   | @done c e R' hs hf =>
@@ -85,13 +72,14 @@ theorem collect {code} {Oq : Nat → Prop} {oq fr G pe S sid i f d c outs e}
       intro h; rcases h with h | h
       · exact hr h
       · omega
-    have h1 : R1 (f.base + i) = .arr acc := by rw [← hf _ hnw]; exact hacc
-    let R1' := R1.set (f.base + i) (.arr (acc ++ [w]))
-    have hon : EqOn (Keep Oq oq o1) R1 R1' := by
+    have h1 : R1 (f.base + i) = .v (.arr acc) := by rw [← hf _ hnw]; exact hacc
+    let R1' := R1.set (f.base + i) (.v (.arr (acc ++ [w])))
+    have hon : EqOn (KeepP Oq P oq o1) R1 R1' := by
       intro j hj; simp only [R1', Regs.set]; split
       · rename_i h; subst h
-        rcases hj with hj | hj
+        rcases hj with (hj | hj) | hj
         · exact absurd hj hr
+        · exact absurd hj hrP
         · omega
       · rfl
     obtain ⟨R', hs2, hacc2, hf2⟩ := ih R1' hon (acc ++ [w]) (by simp [R1', Regs.set])
@@ -108,11 +96,12 @@ theorem collect {code} {Oq : Nat → Prop} {oq fr G pe S sid i f d c outs e}
 
 /-- from the body of a function or argument closure (exit = its `ret`, one more frame) to the
     call site: `ret` pops the frame and reclaims its register area iff no fork protects it -/
-theorem call_of_body {code} {Ob : Nat → Prop} {o n pr fr F S c outs e} {fm : Frame}
+theorem call_of_body {code} {Ob P P' : Nat → Prop} {o n pr fr F S c outs e} {fm : Frame}
     (hfr : fr ≠ []) (hbase : fm.base = o) (hnf : fm.nf = F.length)
-    (hOb : ∀ a, Ob a → o ≤ a ∧ a < o + n) (hret : code[pr]? = some .ret)
-    (y : Yields code Ob (o + n) (fm :: fr) F pr S c outs e) :
-    Yields code (fun _ => False) o fr F (fm.ret + 1) S c outs e := by
+    (hOb : ∀ a, Ob a → o ≤ a ∧ a < o + n) (hP' : ∀ a, P' a → P a ∨ (o ≤ a ∧ a < o + n))
+    (hret : code[pr]? = some .ret)
+    (y : Yields code Ob P' (o + n) (fm :: fr) F pr S c outs e) :
+    Yields code (fun _ => False) P o fr F (fm.ret + 1) S c outs e := by
   obtain ⟨g, fr', rfl⟩ : ∃ g fr', fr = g :: fr' := by
     cases fr with
     | nil => exact absurd rfl hfr
@@ -134,8 +123,11 @@ theorem call_of_body {code} {Ob : Nat → Prop} {o n pr fr F S c outs e} {fm : F
       · exact hs.trans (Steps.one (by simp [step, hret, hnf, hnil]))
       · intro R2 h2
         refine ih R2 (h2.mono ?_)
-        intro a h; rcases h with h | h
+        intro a h; rcases h with (h | h) | h
         · exact Or.inr ⟨(hOb a h).1, by have := (hOb a h).2; omega⟩
+        · rcases hP' a h with h | h
+          · exact Or.inl (Or.inr h)
+          · exact Or.inr ⟨h.1, by omega⟩
         · exact Or.inr ⟨by omega, h.2⟩
 
 /-! ## lexical lookup -/
@@ -174,9 +166,6 @@ theorem frameAt_push (x : Frame) (fr : List Frame) (d : Nat) (h : d < fr.length)
   have e : fr.length + 1 - 1 - d = (fr.length - 1 - d) + 1 := by omega
   rw [e, List.getElem?_cons_succ]
 
-theorem frameAt_top (x : Frame) (fr : List Frame) : frameAt (x :: fr) fr.length = some x := by
-  simp [frameAt]
-
 /-- the argument closure for `q`, created inside the body of `h`, is laid out at `pcL`:
     `scope [pcL, n, 0]; q; ret`, lexically after the `opscope` of `h` -/
 def LamAt (code : Code) (entry : Name → Nat) (pcL : Nat) (h : Option Name) (q : Q) : Prop :=
@@ -185,43 +174,60 @@ def LamAt (code : Code) (entry : Name → Nat) (pcL : Nat) (h : Option Name) (q 
   code[pcL + 1 + (compile entry h pcL (pcL+1) q).length]? = some .ret ∧
   scopeOf entry h < pcL
 
-/-- the machine's frames realise the closure environment `ρ` of code lexically inside function
-    `g`, looked up from the frame at depth `t`: walking `outerindex` from `t` reaches the frame
-    of `g`, whose parameter slot holds `(pcL, d')` — the code of the argument expression and the
-    depth of the frame it was created in, which in turn realises the environment captured -/
-inductive EnvRel (code : Code) (entry : Name → Nat) (nf : Nat) : List Frame → Nat → Clo → Option Name → Prop where
-  | none {fr t g} : EnvRel code entry nf fr t .none g
+/-- the machine's frames and registers realise the closure environment `ρ` of code lexically
+    inside function `g`, looked up from the frame at depth `t`: walking `outerindex` from `t`
+    reaches the frame of `g`, whose register 1 — a read-only register, in `P` — holds the closure
+    `(pcL, d')`: the code of the argument expression and the depth of the frame it was created
+    in, which in turn realises the environment captured -/
+inductive EnvRel (code : Code) (entry : Name → Nat) (nf : Nat) (P : Nat → Prop) (R : Regs) :
+    List Frame → Nat → Clo → Option Name → Prop where
+  | none {fr t g} : EnvRel code entry nf P R fr t .none g
   | mk {fr t g h q ρ f dg pcL d' fd} :
-      resolve (scopeOf entry g) fr t = some (f, dg) → f.param = some (pcL, d') → f.argc = 1 → d' < dg →
+      resolve (scopeOf entry g) fr t = some (f, dg) → R (f.base + 1) = .clo pcL d' → P (f.base + 1) → d' < dg →
       frameAt fr d' = some fd → fd.id < pcL →
       LamAt code entry pcL h q → q.Closed nf → (q.HasParam → ρ ≠ .none) →
-      EnvRel code entry nf fr d' ρ h → EnvRel code entry nf fr t (.mk h q ρ) g
+      EnvRel code entry nf P R fr d' ρ h → EnvRel code entry nf P R fr t (.mk h q ρ) g
 
-theorem EnvRel.push {code entry nf fr t ρ g} (x : Frame) (h : EnvRel code entry nf fr t ρ g) (ht : t < fr.length) :
-    EnvRel code entry nf (x :: fr) t ρ g := by
+theorem EnvRel.push {code entry nf P R fr t ρ g} (x : Frame) (h : EnvRel code entry nf P R fr t ρ g) (ht : t < fr.length) :
+    EnvRel code entry nf P R (x :: fr) t ρ g := by
   induction h with
   | none => exact EnvRel.none
-  | mk hr hp ha hd hfd hid hl hc hpar _ ih =>
+  | mk hr hp hP hd hfd hid hl hc hpar _ ih =>
     have hdg := resolve_lt _ _ _ _ _ hr
-    exact EnvRel.mk (by rw [resolve_push _ _ _ _ ht]; exact hr) hp ha hd
+    exact EnvRel.mk (by rw [resolve_push _ _ _ _ ht]; exact hr) hp hP hd
       (by rw [frameAt_push _ _ _ (by omega)]; exact hfd) hid hl hc hpar (ih (by omega))
 
 /-- entering an argument closure whose lexical parent is the frame at depth `d'` -/
-theorem EnvRel.lam {code entry nf fr d' ρ h} (x : Frame) (he : EnvRel code entry nf fr d' ρ h) (hd : d' < fr.length)
-    (hid : x.id ≠ scopeOf entry h) (hout : x.outer = some d') : EnvRel code entry nf (x :: fr) fr.length ρ h := by
+theorem EnvRel.lam {code entry nf P R fr d' ρ h} (x : Frame) (he : EnvRel code entry nf P R fr d' ρ h) (hd : d' < fr.length)
+    (hid : x.id ≠ scopeOf entry h) (hout : x.outer = some d') : EnvRel code entry nf P R (x :: fr) fr.length ρ h := by
   cases he with
   | none => exact EnvRel.none
-  | mk hr hp ha hdd hfd hidd hl hc hpar hrec =>
+  | mk hr hp hP hdd hfd hidd hl hc hpar hrec =>
     have hdg := resolve_lt _ _ _ _ _ hr
-    exact EnvRel.mk (by simp [resolve, hid, hout, hr]) hp ha hdd
+    exact EnvRel.mk (by simp [resolve, hid, hout, hr]) hp hP hdd
       (by rw [frameAt_push _ _ _ (by omega)]; exact hfd) hidd hl hc hpar (hrec.push x (by omega))
 
-theorem EnvRel.inv_mk {code entry nf fr t g h q ρ} (he : EnvRel code entry nf fr t (.mk h q ρ) g) :
-    ∃ f dg pcL d' fd, resolve (scopeOf entry g) fr t = some (f, dg) ∧ f.param = some (pcL, d') ∧ f.argc = 1 ∧ d' < dg ∧
+/-- the relation reads the registers only at `P` -/
+theorem EnvRel.congr {code entry nf P R R' fr t ρ g} (h : EnvRel code entry nf P R fr t ρ g) (heq : EqOn P R R') :
+    EnvRel code entry nf P R' fr t ρ g := by
+  induction h with
+  | none => exact EnvRel.none
+  | mk hr hp hP hd hfd hid hl hc hpar _ ih =>
+    exact EnvRel.mk hr (by rw [← heq _ hP]; exact hp) hP hd hfd hid hl hc hpar ih
+
+theorem EnvRel.monoP {code entry nf} {P P' : Nat → Prop} {R fr t ρ g} (h : EnvRel code entry nf P R fr t ρ g)
+    (hPP : ∀ a, P a → P' a) : EnvRel code entry nf P' R fr t ρ g := by
+  induction h with
+  | none => exact EnvRel.none
+  | mk hr hp hP hd hfd hid hl hc hpar _ ih =>
+    exact EnvRel.mk hr hp (hPP _ hP) hd hfd hid hl hc hpar ih
+
+theorem EnvRel.inv_mk {code entry nf P R fr t g h q ρ} (he : EnvRel code entry nf P R fr t (.mk h q ρ) g) :
+    ∃ f dg pcL d' fd, resolve (scopeOf entry g) fr t = some (f, dg) ∧ R (f.base + 1) = .clo pcL d' ∧ P (f.base + 1) ∧ d' < dg ∧
       frameAt fr d' = some fd ∧ fd.id < pcL ∧
-      LamAt code entry pcL h q ∧ q.Closed nf ∧ (q.HasParam → ρ ≠ .none) ∧ EnvRel code entry nf fr d' ρ h := by
+      LamAt code entry pcL h q ∧ q.Closed nf ∧ (q.HasParam → ρ ≠ .none) ∧ EnvRel code entry nf P R fr d' ρ h := by
   cases he with
-  | mk hr hp ha hd hfd hid hl hc hpar hrec => exact ⟨_, _, _, _, _, hr, hp, ha, hd, hfd, hid, hl, hc, hpar, hrec⟩
+  | mk hr hp hP hd hfd hid hl hc hpar hrec => exact ⟨_, _, _, _, _, hr, hp, hP, hd, hfd, hid, hl, hc, hpar, hrec⟩
 
 /-- every function `f < nf` is laid out as compileFuncDef does:
     `scope [id, n, 1]; store [id,0]; store [id,1]; load [id,0]; body; ret` with `id = entry f` -/
